@@ -15,7 +15,12 @@ git apply "$D/patch.diff" || { echo "RESULT patch-does-not-apply"; exit 1; }
 SUITE=$(cargo test --workspace --no-fail-fast --offline 2>&1 | awk '/^test result/{p+=$4; f+=$6} END {print p" "f}')
 echo "suite with patch: passed/failed = $SUITE"
 cp "$D/demo.rs" marwood/tests/zz_seed_demo.rs
-WITH=$(cargo test -p marwood --test zz_seed_demo --offline $EXTRA 2>&1 | grep -E "^test result" | tail -1)
+WITHOUT_LOG=$(mktemp)
+cargo test -p marwood --test zz_seed_demo --offline $EXTRA > "$WITHOUT_LOG" 2>&1; WITH_CODE=$?
+WITH=$(grep -E "^test result" "$WITHOUT_LOG" | tail -1)
+# a demonstration that takes the test process down (native stack overflow, abort) prints no result line
+[ -z "$WITH" ] && [ "$WITH_CODE" -ne 0 ] && WITH="FAILED (test process died: $(grep -m1 -E 'overflowed its stack|SIGABRT|SIGSEGV|signal' "$WITHOUT_LOG" | cut -c1-100))"
+rm -f "$WITHOUT_LOG"
 echo "demo WITH patch:    $WITH"
 git apply -R "$D/patch.diff"
 WITHOUT=$(cargo test -p marwood --test zz_seed_demo --offline $EXTRA 2>&1 | grep -E "^test result" | tail -1)
